@@ -7,7 +7,9 @@ S=/tmp/vseed
 if [ ! -d $S/repo ]; then mkdir -p $S; git -C /repo worktree add --detach $S/repo HEAD >/dev/null 2>&1; cp /repo/Cargo.lock $S/repo/; fi
 git -C $S/repo checkout -q --detach $(git -C /repo rev-parse HEAD); git -C $S/repo checkout -- .
 mkdir -p $S/verif
-rsync -a --delete --exclude target --exclude .git --exclude replays --exclude probe/work /verif/ $S/verif/
+# committed state only (so that work in progress in /verif cannot break the matrix)
+find $S/verif -mindepth 1 -maxdepth 1 ! -name target -exec rm -rf {} +
+git -C /verif archive HEAD | tar -x -C $S/verif
 sed -i "s|path = \"/repo\"|path = \"$S/repo\"|" $S/verif/harness/Cargo.toml
 sed -i "s|target-dir = \"/verif/target\"|target-dir = \"$S/verif/target\"|" $S/verif/harness/.cargo/config.toml
 cd $S/verif && VERIF_ROOT=$S/verif ./vcheck setup >/dev/null 2>&1
